@@ -38,6 +38,9 @@ func sameIndex(a, b desync.Index) string {
 	return ""
 }
 
+// c04WrappedDigest is a caller's own HashAlgorithm built on one of desync's.
+type c04WrappedDigest struct{ desync.HashAlgorithm }
+
 var c04Fixtures = []string{"testdata/index.caibx", "testdata/chunker.index", "testdata/blob1.caibx", "cmd/desync/testdata/blob1.caibx", "cmd/desync/testdata/blob2.caibx", "cmd/desync/testdata/tree.caidx"}
 
 func runC04(c *fw.Case) {
@@ -46,8 +49,23 @@ func runC04(c *fw.Case) {
 		return
 	}
 	sha256mode := c.Chance(1, 4, "sha256")
-	if sha256mode {
-		desync.Digest = desync.SHA256{}
+	// desync.Digest is an exported interface variable: a library caller may configure the algorithm as a value, as a
+	// pointer (the methods have value receivers) or inside a type of its own; the digest-flag rule holds for all of them
+	digestForm := c.T.DrawOptional(6, "digest.form", 0)
+	if sha256mode || digestForm >= 4 {
+		var d desync.HashAlgorithm = desync.SHA512256{}
+		if sha256mode {
+			d = desync.SHA256{}
+		}
+		switch {
+		case digestForm == 4 && sha256mode:
+			d = &desync.SHA256{}
+		case digestForm == 4:
+			d = &desync.SHA512256{}
+		case digestForm == 5:
+			d = c04WrappedDigest{d}
+		}
+		desync.Digest = d
 		defer func() { desync.Digest = desync.SHA512256{} }()
 	}
 	// casync-made fixtures must re-encode byte-identically (SHA512/256 files only parse in that mode)
